@@ -81,7 +81,7 @@ def _dom(tier):
 
 def describe(tier):
     d = _dom(tier)
-    return ("flows of length 0..%d; pipeline shapes: %d (placements source, sequence, nested, split_seq, "
+    return ("flows of length 0..%d; pipeline shapes: %d (placements source, sequence, nested, split_seq, split_nested, "
             "split_tuple, alter, cache_alter, alter_element; one or two caches), flow kinds ints for all "
             "shapes and (int, context) / falsy pool for %d of them; all histories of <= depth[n] runs, "
             "depth by flow length n = %s, explored with merging of identical (depth, directory snapshot, "
@@ -96,6 +96,14 @@ ACC, ACC2 = ["acc", "s"], ["acc", "t"]
 CA, CB = ["cache", "A"], ["cache", "B"]
 # a second cache whose file name continues the first one's ("A.pkl" and "A.pkl.b.pkl"): different caches
 CB2 = ["cache", "A.pkl.b"]
+
+
+def _nest(els, p):
+    """The same elements as a Sequence nested two levels deep around the part that ends with the
+    cache at position p: Sequence(Sequence(Sequence(..cache), next), rest...) - grouping means nothing."""
+    inner = lena.core.Sequence(*els[:p + 1])
+    mid = lena.core.Sequence(inner, *els[p + 1:p + 2])
+    return lena.core.Sequence(mid, *els[p + 2:])
 
 
 def _shapes(tier):
@@ -148,6 +156,9 @@ def _shapes(tier):
     for elems in [[F, CA], [F, CA, G], [F, ACC, CA]]:
         out.append(("split_seq", elems, "n"))
     out.append(("split_seq", [F, CA, F2, CB], "n"))
+    for elems in [[F, CA], [F, CA, G], [F, CA, G, ACC2]]:
+        out.append(("split_nested", elems, "n"))
+    out.append(("split_nested", [F, CA, G], "default"))
     for elems in [[CA], [F, CA], [F, ACC, CA], [F, ACC, CA, G]]:
         out.append(("split_tuple", elems, "default"))
     for elems in [[F, CA], [F, ACC, CA]]:
@@ -351,6 +362,9 @@ def execute(shape, run, r, keep, counters=None):
         elif pl == "split_seq":
             sp = lena.core.Split([lena.core.Sequence(*els)], **_bufsize(shape))
             it = lena.core.Source(src, sp, *tail)()
+        elif pl == "split_nested":
+            sp = lena.core.Split([_nest(els, M.cache_positions(elems)[0])], **_bufsize(shape))
+            it = lena.core.Source(src, sp, *tail)()
         elif pl == "split_tuple":
             sp = lena.core.Split([tuple(els)], **_bufsize(shape))
             it = lena.core.Source(src, sp, *tail)()
@@ -417,6 +431,10 @@ class Pipeline(object):
         elif pl == "split_seq":
             self.obj = lena.core.Source(self.src, lena.core.Split([lena.core.Sequence(*els)], **_bufsize(shape)))
             self.call = True
+        elif pl == "split_nested":
+            self.obj = lena.core.Source(self.src, lena.core.Split(
+                [_nest(els, M.cache_positions(shape["elems"])[0])], **_bufsize(shape)))
+            self.call = True
         elif pl == "split_tuple":
             self.obj = lena.core.Source(self.src, lena.core.Split([tuple(els)], **_bufsize(shape)))
             self.call = True
@@ -454,7 +472,7 @@ class Pipeline(object):
 
 
 def reusable(shape):
-    return (shape["placement"] in ("source", "sequence", "nested", "split_seq", "split_tuple")
+    return (shape["placement"] in ("source", "sequence", "nested", "split_seq", "split_nested", "split_tuple")
             and all(sp[0] in ("f", "cache") for sp in shape["elems"]))
 
 
